@@ -170,3 +170,10 @@ package store
 //@ func Momentum.PrefetchMomentum(self, momentum) -> (d, err)
 //@   ensures err == nil ==> d != nil && d.Momentum == momentum
 //@   modifies nothing
+
+// The contract's key-value storage: one object per account view (its typed abstract content is declared in
+// vm/embedded/definition).
+//@ model Account storage int
+//@ func Account.Storage(self)
+//@   ensures result != nil && int(result) == self.storage
+//@   modifies nothing
